@@ -50,6 +50,7 @@ def drive_and_validate(run, cases, shards):
 
 def check(tier):
     run = Run("C16", tier)
+    run.skip_key = ['name', 'kw', 'spell', 'role']
     res = core.tlc("mc/MC_C16.tla", mc_cfg(run, MAXLEN[tier]), workers=8, coverage=True, timeout=3000, xmx="12g")
     core.check_coverage(res)
     run.add_tlc(res, f"Idents: all names up to {MAXLEN[tier]} characters over {{a,b,A,B,1,-}} x roles, every keyword x spelling x role")
